@@ -167,6 +167,9 @@ def run(res):
     import props.C19 as C19
     for r in fw.run_parallel(C19.scene_case, [dict(seed=res.seed + 4, idx=i, quick=True) for i in range(16 if quick else 160)]):
         res.absorb(r)
+    # ... and a Kang object run a second time (another source first) must equal a fresh object, in every band
+    for r in fw.run_parallel(C19.rerun_case, [dict(seed=res.seed + 9, idx=i) for i in range(4 if quick else 40)]):
+        res.absorb(r)
     res.rule = ("shoebox scenes (sides 1-6 m, non-integer, 6-%d patches, 1-2 bands, per-wall absorption incl. "
                 "exact 0/1, orders 2-3, window holding every arrival) + synthetic asymmetric _energy_exchange "
                 "inputs; non-trivial = (>=2 distinct wall absorptions or the uniform sub-case) and order >= 2, "
